@@ -50,6 +50,11 @@ CHECKS = {
         text="FString.tla enumerates prefix (8) x quote (4) x sequences of 50 items (literal-part classes and replacement-field forms incl. conversions, '=', specs, nested fields, nested f-strings, lambda/dict/walrus, multi-line fields) x adjacent-literal concatenations; every f-string of the corpus / stdlib sample is added. For every literal CPython accepts, TLC validates the reduced token-stream pair and the flattened tree pair (with spans).",
         note="CPython 3.12.1 is the oracle. Nine known findings by family; a difference is attributed to one only if the same literal with that feature removed (harness/fsreduce.py) agrees completely in tokens and tree, otherwise it is a violation.",
         ref="5/C10"),
+    "C11": dict(
+        technique="trace validation: every SyntaxError/IndentationError raised by the real parser on TLC-generated rejected inputs checked by TLC against ErrShape.tla",
+        text="Rejected snippets (the repository's own invalid test inputs, harvested; special snippets for literal-evaluation, conversion, macro-bracket, dedent-located and version-gate errors) are placed by ErrLayout.tla at 14 positions (first line, after blank/comment lines, after statements, inside space-/tab-indented and nested blocks, before more code, after multi-line tokens and continuations, CRLF, no final newline, after xonsh statements); the single-character edit neighbourhood (EditGen) of seed programs is added; both entry points are used and version-gated syntax is parsed under py_version=(3,8). TLC validates every raised error record against ErrShape.tla.",
+        note="Line length = characters without the terminator; offset may be one past it. 'text begins with the source line' is compared by the harness (TLC strings cannot be sliced) and consumed by the spec as a boolean.",
+        ref="5/C11"),
     "C14": dict(
         technique="TLC enumeration of statement sequences from StmtSeq.tla -> composition law checked on the real parser; tree pairs (whole vs shifted parts) trace-validated by TLC (AstEq.tla)",
         text="StmtSeq.tla lists 55 complete statement forms (Python simple/compound, multi-line tokens, comment/blank lines, every xonsh statement form incl. empty macros and path-literal concatenations); TLC enumerates every sequence of up to 2 (all kinds) / 3 (xonsh-heavy subset) kinds in quick, 3 / 4 in thorough; the body of the concatenation must equal the bodies of the parts with shifted line numbers, positions included.",
